@@ -116,9 +116,6 @@ def validate_bundle(base, cfg="MeldaTrace.cfg", timeout=1800):
         if m:
             res["violations"].append({"pred": m.group(1), "run": int(m.group(2)), "i": int(m.group(3)),
                                       "op": m.group(4), "l": int(m.group(5)), "bundle": base})
-        elif line.startswith('<<"COUNTS"'):
-            for n, c in COUNT_RE.findall(line):
-                res["counts"][n] = int(c)
         elif line.startswith('<<"CONSUMED"'):
             nums = re.findall(r"\d+", line)
             res["consumed"], res["total"] = int(nums[0]), int(nums[1])
@@ -126,6 +123,8 @@ def validate_bundle(base, cfg="MeldaTrace.cfg", timeout=1800):
             m = STATS_RE.search(line)
             if m:
                 res["states"] = int(m.group(2))
+    for n, c in re.findall(r'<<"(C\d\d_[A-Za-z0-9_]+)", (\d+)>>', out):
+        res["counts"][n] = int(c)
     if res["consumed"] != res["total"] or "Error:" in out:
         res["error"] = out[-3000:]
     return res
